@@ -203,7 +203,8 @@ impl WorkerPool {
         let timeout = Duration::from_millis(config.timeout_ms);
 
         loop {
-            if shutdown_flag.load(Ordering::Relaxed) {
+            // On shutdown, first finish the packets that were already queued (they were reported as queued)
+            if shutdown_flag.load(Ordering::Relaxed) && rx.is_empty() {
                 tracing::debug!("TCP worker {worker_id} received shutdown signal");
                 break;
             }
